@@ -143,7 +143,11 @@ def exec_case(ctx, spec):
                                                        rows=[list(map(float, log["knobs"][r])) for r in rows])))
                         p_end = penalty_at(b, knobs, tmask)
                         p_start = penalty_at(b, start_knobs, tmask)
-                        if p_end > p_start * (1 + 1e-12) + 1e-300:
+                        slack = 0.0
+                        for kv in (knobs, start_knobs):
+                            dfk = 2.0 * (np.abs(b.jac(kv)) @ OF.ulp_tol(kv, wv))
+                            slack += float(np.linalg.norm(dfk * np.array(spec["tweights"])))
+                        if p_end > p_start * (1 + 1e-12) + slack + 1e-300:
                             return finish(Failure("C15:step-ends-at-higher-penalty",
                                                   dict(where, start_penalty=p_start, end_penalty=p_end, penalties=pens)))
             elif op == "solve":
@@ -224,15 +228,21 @@ def exec_case(ctx, spec):
         if va != vact[i] or ta != tact[i]:
             return finish(Failure("C15:reload-does-not-reproduce-active-flags",
                                   dict(where, vary_active=va, target_active=ta, logged=[vact[i], tact[i]])))
+        # a knob with weight w is written as (k / w) * w, i.e. the row's penalty / targets were computed up to 4 ulp
+        # away from the logged knob value: first-order bound through the analytic Jacobian (zero for unit weights)
+        dk = OF.ulp_tol(rows_knobs[i], wv)
+        df = 2.0 * (np.abs(b.jac(rows_knobs[i])) @ dk)
         p = penalty_at(b, rows_knobs[i], mask_of(tact[i]))
-        if not abs(p - pen[i]) <= 1e-12 * max(abs(p), abs(pen[i])) + 1e-300:
+        slack = float(np.linalg.norm(np.where(mask_of(tact[i]), df * np.array(spec["tweights"]), 0.0)))
+        if not abs(p - pen[i]) <= 1e-12 * max(abs(p), abs(pen[i])) + slack + 1e-300:
             return finish(Failure("C15:logged-penalty-not-reproducible",
                                   dict(where, logged=float(pen[i]), recomputed=p, knobs=rows_knobs[i].tolist(),
-                                       target_active=tact[i])))
+                                       target_active=tact[i], allowed_by_weight_rounding=slack)))
         fv = b.f(rows_knobs[i])
-        if not np.allclose(fv, tvals[i], rtol=1e-13, atol=1e-300):
+        if np.any(np.abs(fv - tvals[i]) > 1e-13 * np.abs(fv) + df + 1e-300):
             return finish(Failure("C15:logged-target-values-not-reproducible",
-                                  dict(where, logged=tvals[i].tolist(), recomputed=fv.tolist())))
+                                  dict(where, logged=tvals[i].tolist(), recomputed=fv.tolist(),
+                                       allowed_by_weight_rounding=df.tolist())))
     return finish(None)
 
 
